@@ -53,4 +53,49 @@ def Plans.finite (p : Plans) : Bool :=
   let rk := p.rankOf (p.impls.length + 1)
   p.impls.all fun i => i.body.direct.all fun m => decide (rk m < rk i.name)
 
+/-! ### decoders that surely consume input (an array element of zero encoded size has no bound on its count) -/
+
+def BasicDec.sureWith (rec : String → Bool) : BasicDec → Bool
+  | .tryFrom n => rec n
+  | _ => true
+
+def FieldDec.sureWith (rec : String → Bool) : FieldDec → Bool
+  | .one b => b.sureWith rec
+  | .fixedBytes n => decide (0 < n)
+  | .fixedArr k b => decide (0 < k) && b.sureWith rec
+  | _ => true
+
+def StructFieldDec.sureWith (rec : String → Bool) : StructFieldDec → Bool
+  | .plain _ fd => fd.sureWith rec
+  | .optional _ _ => true
+
+def ImplBody.sureWith (rec : String → Bool) : ImplBody → Bool
+  | .struct fs => fs.any (·.sureWith rec)
+  | .union u => u.disc.sureWith rec
+  | .enum _ => true
+  | .typedef fd => fd.sureWith rec
+
+/-- a successful decode of `n` consumes at least one word (checked to depth `g`) -/
+def Plans.sure (p : Plans) : Nat → String → Bool
+  | 0, _ => false
+  | g + 1, n =>
+    match p.findImpl n with
+    | none => false
+    | some i => i.body.sureWith (p.sure g)
+
+def FieldDec.elemTypes : FieldDec → List String
+  | .varArr ty _ _ => [ty]
+  | _ => []
+
+def ImplBody.elemTypes : ImplBody → List String
+  | .struct fs => fs.flatMap fun f => match f with | .plain _ fd => fd.elemTypes | .optional _ _ => []
+  | .union u => (u.arms.flatMap fun a => match a.payload with | some fd => fd.elemTypes | none => []) ++
+      (match u.tail with | .defaultData fd => fd.elemTypes | _ => [])
+  | .enum _ => []
+  | .typedef fd => fd.elemTypes
+
+/-- every element type of every counted array surely consumes input -/
+def Plans.elemsSure (p : Plans) : Bool :=
+  p.impls.all fun i => i.body.elemTypes.all (p.sure (p.impls.length + 1))
+
 end Fx
